@@ -54,6 +54,14 @@ fn materialize(t: &Value, style: u64) -> Vec<u8> {
                 s.push_str(" \n");
                 s.into_bytes()
             }
+            // a valid text longer than 8 KiB: padded with 10 000 blanks of JSON white space
+            4 => {
+                let mut s = " ".repeat(5_000);
+                spaced(&v, &mut s);
+                s.push_str(&" ".repeat(5_000));
+                s.push('\n');
+                s.into_bytes()
+            }
             _ => v.to_string().into_bytes(),
         };
     }
@@ -64,6 +72,21 @@ fn materialize(t: &Value, style: u64) -> Vec<u8> {
         "notjson" => b"nonsense".to_vec(),
         "badutf8" => vec![0xff, 0xfe, b'{', b'}'],
         "junk" => b"JUNK-ON-STDIN".to_vec(),
+        // two JSON documents / junk followed by a document on a later line: not ONE JSON text
+        "twodocs" => b"1\n2".to_vec(),
+        "junkthendoc" => b"oops\n{\"a\": 1}\n".to_vec(),
+        // a valid document, 10 000 blanks, then garbage: invalid, and longer than any single read buffer
+        "longgarbage" => {
+            let mut v = b"1".to_vec();
+            v.extend(vec![b' '; 10_000]);
+            v.push(b'2');
+            v
+        }
+        // padding with characters that are Unicode white space but NOT JSON white space
+        "ffpad" => b"\x0c{\"==\":[1,1]}".to_vec(),
+        "nbsppad" => "null\u{a0}".as_bytes().to_vec(),
+        "nelpad" => "\u{85}1".as_bytes().to_vec(),
+        "lspad" => "[1]\u{2028}".as_bytes().to_vec(),
         // nesting far beyond the parser's recursion limit: must be a parse error, never a stack overflow
         "deep100k" => {
             let mut v = vec![b'['; 60_000];
